@@ -1,7 +1,9 @@
 package mcap
 
 import (
+	"bytes"
 	"encoding/binary"
+	"errors"
 	"io"
 )
 
@@ -17,11 +19,17 @@ func readPrefixedString(buf []byte, r io.Reader) (string, error) {
 		return "", err
 	}
 	strlen := binary.LittleEndian.Uint32(buf[:4])
-	s := make([]byte, strlen)
-	if _, err := io.ReadFull(r, s); err != nil {
+	// The length prefix is untrusted input: grow the buffer as bytes actually
+	// arrive rather than allocating up to 4 GiB up front.
+	var s bytes.Buffer
+	n, err := io.CopyN(&s, r, int64(strlen))
+	if err != nil {
+		if errors.Is(err, io.EOF) && n > 0 {
+			err = io.ErrUnexpectedEOF
+		}
 		return "", err
 	}
-	return string(s), nil
+	return s.String(), nil
 }
 
 func putByte(buf []byte, x byte) (int, error) {
